@@ -39,7 +39,7 @@ PROPS = {
                 rule="runs in all gradient modes, restart chains of length 0..4, scalers; non-trivial = >=1 iteration; distinct by (problem seed, mode, chain length)",
                 explanation="theorem C05_coherent over the driver model using the wrapper invariant of C15; bit-exact driver correspondence",
                 assumptions=COMMON_ASSUME),
-    "C06": dict(monitor=D2, level="proof", corr=["memory", "driver"],
+    "C06": dict(monitor=D2, level="proof", corr=["driver:restart"],
                 rule="every split k of runs on smooth families, reduced maxcor, chains of restarts; non-trivial = a split with >=2 pairs in memory; distinct by problem seed",
                 explanation="theorem restore_diffs (exact reconstruction of the history from its differences, any abelian group, every split, reduced maxcor) + driver correspondence on restarts; the rounding gap in binary64 is explored",
                 assumptions=COMMON_ASSUME + ["'up to rounding' is compared with rtol 1e-7 while the step is macroscopic (> 1e-3 of the scale)"]),
